@@ -10,13 +10,19 @@ PROP = dict(
         "cumulative_selection_proportional; join selgrid: cumulative_selection_proportional; jsel jdens (and the exact Q "
         "variants): mixture_selection_interval, mixture_density; lsamp ldens lbsdf: lambert_cdf, lambert_energy; adsamp "
         "addens psamp pdens pbsdf maxcos: phong_cdf, phong_mixture, phong_energy_le, lobe_sample_cosine; hgsamp hgdens "
-        "hgnum: hg_cdf; finfo ausamp audens fdens: uniform_cap_cdf, focus_info_tangent_cone"),
+        "hgnum hgbsdf: hg_cdf, hg_sample_is_direction, hg_energy_le; finfo ausamp audens fdens fsamp: uniform_cap_cdf, "
+        "focus_info_tangent_cone, focus_density_matches_sampler; pfsamp pfdens: focus_density_matches_sampler_phong; jbsdf: "
+        "joined_energy; rbsdf also: refract_energy_le, refract_lobe_energy_pointwise; rsamp rsampd also: "
+        "refract_sample_has_positive_weight; mesh also: triangle_jacobian, triangle_map_area_preserving, "
+        "join_lights_selection_proportional (zero-area triangles)"),
     rule=(
         "one case = one call of a real render3d sampler / density / BSDF / light with the randomness scripted (a rand.Source "
         "replaying harness-chosen raw values, so gen.Float64()/Intn(2)/NormFloat64() return known numbers) and arguments drawn "
         "from: unit vectors incl. axis-aligned and tie cases of OrthoBasis; indices of refraction above, below and equal to 1; "
         "normal and grazing incidence; exponents 0..1e4; G in [-2,2]; radii != 1; uniforms k/2^53 incl. 0, 1-2^-53 and values "
-        "on the boundaries of the cumulative tables / of the reflectance; degenerate weights.  Distinct = distinct op lines."),
+        "on the boundaries of the cumulative tables / of the reflectance (incl. reflectance exactly 0); degenerate weights; meshes "
+        "with zero-area triangles; focus points inside/outside/filtered out, PhongFocusPoint with point == Target.  "
+        "Distinct = distinct op lines (mesh cases depend on Go's map iteration order, read back through a hook)."),
     trusted=[
         "modelled, not verified: IEEE rounding (theorems are over ordered fields; the Float run of the same definitions is compared bit for bit with Go)",
         "libm results (cos, sin, acos, pow with non-integer exponent) are passed to the model as arguments computed by the harness with the expression the Go code uses; their closed forms are only validated with a tolerance (validate: sites)",
@@ -34,12 +40,17 @@ PROP = dict(
         "probabilities the sampler uses; mixture densities are sum p_i*density_i with the selection intervals of length p_i; "
         "Phong/Lambert reflected energy bounded lobe by lobe; cumulative-table selection (with Go's binary search) is "
         "proportional to weight; every sphere / cylinder cap / cylinder shaft / mesh-triangle sample lies on its surface with "
-        "the unit outward normal for every radius; TotalEmission = emission x area; for Lambert, Phong lobe, Henyey-Greenstein "
+        "the unit outward normal for every radius; TotalEmission = emission x area; joined lights select parts in proportion to "
+        "TotalEmission and never a zero-weight part for a positive draw; the triangle map has constant Frechet-Jacobian 1/2 and "
+        "maps the rectangles [0,t^2]x[0,q] onto sub-triangles of area fraction t^2 q; RefractMaterial / JoinedMaterial / "
+        "HGMaterial energy bounds for every linear functional; HG samples are unit vectors for every draw (clamp) and the clamp "
+        "is the identity in exact arithmetic; Sphere/PhongFocusPoint densities are the ones their samplers draw from "
+        "(with acos/cos/sin over the reals); for Lambert, Phong lobe, Henyey-Greenstein "
         "and the uniform cap the sampler's radial map inverts the closed-form CDF whose derivative is density/2 (HasDerivAt, "
         "Mathlib).  The models are the functions the driver executes; they are compared bit for bit (Float) or exactly (Rat) "
         "with the real Go code driven by scripted randomness on every run."),
     level_note=(
-        "Partial: uniformity on the triangle is proved only as the Jacobian identity (triangle_jacobian_partial); sampling "
-        "histograms are not theorems; the delta-lobe approximation (2/eps caps) is checked only for split weights and support; "
+        "Partial: the step from 'equal on the generating rectangles' / 'constant Jacobian' to equality of measures is the "
+        "standard pi-lambda / change-of-variables argument and is not formalised; sampling histograms are not theorems; the delta-lobe approximation (2/eps caps) is checked only for split weights and support; "
         "libm-dependent values are oracle arguments.  Trusted: Lean kernel + Mathlib, the Go harness and driver, math/rand's raw mapping."),
 )
